@@ -159,3 +159,188 @@ Proof.
   - (* __sort *) peek_all Hok Hst l [v; v0]. reflexivity.
   - (* __to_array *) peek_all Hok Hst l [v]. reflexivity.
 Qed.
+
+(* ------------------------------------------------------------------ *)
+(* call_native for every native of the menu                            *)
+(* ------------------------------------------------------------------ *)
+
+Lemma all_natives_complete n : In n all_natives.
+Proof. destruct n; cbn; tauto. Qed.
+
+Lemma find_native_menu n : find_native (handle_of_bytes (native_name n)) all_natives = Some n.
+Proof. destruct n; vm_compute; reflexivity. Qed.
+
+Lemma call_native_typed F P re fuel n s l vs :
+  stack_ok s -> stack_of s = l ++ vs -> length vs = native_arity n ->
+  call_native_fuel F P re (S fuel) (handle_of_bytes (native_name n)) s
+  = native_finish n (typed_call F P re (call_native_fuel F P re fuel) n s).
+Proof.
+  intros Hok Hst Hlen. cbn [call_native_fuel]. rewrite find_native_menu.
+  rewrite (native_body_typed F P re (call_native_fuel F P re fuel) n l vs Hok Hst Hlen). reflexivity.
+Qed.
+
+(* every conversion succeeds: the function is called with the converted values in declaration order; afterwards
+   pop_n::<k>, and the result is pushed / the error is wrapped as TaskFailure{name} *)
+Theorem native_args_menu : forall F P re fuel n s l vs args,
+  stack_ok s -> stack_of s = l ++ vs -> length vs = native_arity n -> length args = native_arity n ->
+  (forall j, j < native_arity n ->
+             conv F (nth j (native_sig n) TyValue) (st_heap s) (nth j vs VNil) = CvOk (nth j args ANone)) ->
+  call_native_fuel F P re (S fuel) (handle_of_bytes (native_name n)) s
+  = native_finish n (native_fn F P re (call_native_fuel F P re fuel) n args s).
+Proof.
+  intros F P re fuel n s l vs args Hok Hst Hlen Hargs Hconv.
+  rewrite (call_native_typed F P re fuel n l vs Hok Hst Hlen). unfold typed_call.
+  rewrite <- Hlen, (peek_args_app l vs Hok Hst).
+  assert (E : conv_args F (native_sig n) vs 1 (st_heap s) = CaOk args).
+  { apply conv_args_ok. rewrite native_sig_arity. repeat split; auto. }
+  rewrite E. reflexivity.
+Qed.
+
+(* a conversion fails: the error names the LAST parameter whose conversion fails (= the first in conversion order),
+   whatever the parameters before it are; the function does not run (nothing is logged, heap untouched) and all k
+   arguments are consumed all the same *)
+Theorem native_conversion_error_menu : forall F P re fuel n s l vs j,
+  stack_ok s -> stack_of s = l ++ vs -> length vs = native_arity n ->
+  j < native_arity n ->
+  conv F (nth j (native_sig n) TyValue) (st_heap s) (nth j vs VNil) = CvFail ->
+  (forall j', j < j' -> j' < native_arity n ->
+              exists a, conv F (nth j' (native_sig n) TyValue) (st_heap s) (nth j' vs VNil) = CvOk a) ->
+  exists s',
+    call_native_fuel F P re (S fuel) (handle_of_bytes (native_name n)) s
+      = NErr (ETaskFailure (native_name n) (EConversion (N.of_nat (S j)))) s' /\
+    stack_ok s' /\ stack_of s' = l /\ st_calls s' = st_calls s /\ st_globals s' = st_globals s /\
+    st_heap s' = st_heap s /\ st_log s' = st_log s.
+Proof.
+  intros F P re fuel n s l vs j Hok Hst Hlen Hj Hc Hlater.
+  rewrite (call_native_typed F P re fuel n l vs Hok Hst Hlen). unfold typed_call.
+  replace (peek_args s (native_arity n)) with vs
+    by (rewrite <- Hlen; symmetry; apply (peek_args_app l vs Hok Hst)).
+  assert (E : conv_args F (native_sig n) vs 1 (st_heap s) = CaFail (S j)).
+  { apply conv_args_fail; [rewrite native_sig_arity; lia|]. rewrite native_sig_arity.
+    exists j. repeat split; auto. }
+  rewrite E. cbn [native_finish].
+  destruct (spop_n_app l vs Hok Hst) as (Hok2 & Hst2 & _). rewrite Hlen in Hok2, Hst2.
+  destruct (spop_n_fields s (native_arity n)) as (Fc & Fg & Fh & Fl & _).
+  eexists; split; [reflexivity|]. repeat split; auto.
+Qed.
+
+(* the natives that neither re-enter nor allocate: result and log entry are [simple_result] of the received
+   parameters; exactly the k arguments are replaced by the result *)
+Theorem native_args_menu_simple : forall F P re fuel n s l vs args,
+  simple_native n = true ->
+  stack_ok s -> stack_of s = l ++ vs -> length vs = native_arity n -> length args = native_arity n ->
+  (forall j, j < native_arity n ->
+             conv F (nth j (native_sig n) TyValue) (st_heap s) (nth j vs VNil) = CvOk (nth j args ANone)) ->
+  exists v e s',
+    simple_result F n args (length l + native_arity n) (length (st_calls s)) (st_heap s) = Some (v, e) /\
+    call_native_fuel F P re (S fuel) (handle_of_bytes (native_name n)) s = NOk v s' /\
+    stack_ok s' /\ stack_of s' = l ++ [v] /\ st_log s' = st_log s ++ [e] /\
+    st_calls s' = st_calls s /\ st_globals s' = st_globals s /\ st_heap s' = st_heap s.
+Proof.
+  intros F P re fuel n s l vs args Hs Hok Hst Hlen Hargs Hconv.
+  rewrite (native_args_menu F P re fuel n l vs args Hok Hst Hlen Hargs Hconv).
+  assert (Hcnt : scount s = length l + native_arity n).
+  { rewrite (scount_abs Hok), Hst, app_length, Hlen. reflexivity. }
+  assert (Hfn : exists v e, simple_result F n args (length l + native_arity n) (length (st_calls s)) (st_heap s)
+                            = Some (v, e) /\
+                            native_fn F P re (call_native_fuel F P re fuel) n args s = NOk v (log_push s e)).
+  { destruct n; try discriminate Hs; cbn [native_arity] in *;
+      repeat (let a := fresh "a" in destruct args as [|a args]; cbn [length] in Hargs; try lia);
+      repeat (let v := fresh "v" in destruct vs as [|v vs]; cbn [length] in Hlen; try lia);
+      try (pose proof (Hconv 0 ltac:(lia)) as C0; cbn [nth native_sig conv] in C0);
+      try (pose proof (Hconv 1 ltac:(lia)) as C1; cbn [nth native_sig conv] in C1);
+      try (pose proof (Hconv 2 ltac:(lia)) as C2; cbn [nth native_sig conv] in C2);
+      try (pose proof (Hconv 3 ltac:(lia)) as C3; cbn [nth native_sig conv] in C3);
+      repeat match goal with
+      | H : match ?x with _ => _ end = CvOk _ |- _ => destruct x eqn:?; try discriminate H
+      | H : CvOk _ = CvOk _ |- _ => inversion H; clear H; subst
+      end;
+      cbn [native_fn simple_result]; try rewrite Hcnt; eexists; eexists; split; reflexivity. }
+  destruct Hfn as (v & e & Hsr & Hfn). rewrite Hfn. cbn [native_finish].
+  assert (H1 : 1 <= length vs) by (rewrite Hlen; destruct n; try discriminate Hs; cbn; lia).
+  destruct (@native_return (log_push s e) l vs v Hok Hst H1) as (s' & Hp & Hok' & Hs' & Hc & Hg & Hh & Hl & _).
+  rewrite Hlen in Hp. rewrite Hp. exists v, e, s'. repeat split; auto.
+Qed.
+
+(* ------------------------------------------------------------------ *)
+(* Re-entrant natives: what is handed to run_function / to `_run`      *)
+(* ------------------------------------------------------------------ *)
+
+Definition pushes_arg (n : native) : bool :=
+  match n with NCall1 | NTry1 | NRb1 => true | _ => false end.
+
+(* call1 / try1 / rb1 (f: Value, x: Value) entered with the stack  l ++ [f; x]: x is pushed once more and
+   run_function is called with the callee f they received, on the stack  l ++ [f; x; x]; the result is handed
+   back (call1), an error is swallowed (try1), the heights are logged (rb1); then call_native pops the two
+   arguments from whatever run_function left *)
+Theorem reentrant_args : forall F P re fuel n s l f x,
+  pushes_arg n = true ->
+  stack_ok s -> stack_of s = l ++ [f; x] ->
+  S (length l + 2) < length (vdata (st_stack s)) ->
+  let self := call_native_fuel F P re fuel in
+  exists s1,
+    stack_ok s1 /\ stack_of s1 = l ++ [f; x; x] /\
+    st_calls s1 = st_calls s /\ st_globals s1 = st_globals s /\ st_heap s1 = st_heap s /\ st_log s1 = st_log s /\
+    call_native_fuel F P re (S fuel) (handle_of_bytes (native_name n)) s
+    = native_finish n (reentrant_post n s f (run_function P re self f s1)).
+Proof.
+  intros F P re fuel n s l f x Hn Hok Hst Hroom self.
+  assert (Hfit : S (length (stack_of s)) < length (vdata (st_stack s))).
+  { rewrite Hst, app_length. cbn [length]. lia. }
+  destruct (spush_abs x Hok Hfit) as (s1 & Hp & Hok1 & Hst1 & Hc & Hg & Hh & Hl & _).
+  exists s1. rewrite Hst1, Hst, <- app_assoc. cbn [app]. repeat split; auto.
+  assert (Hargs : forall j, j < 2 ->
+            conv F (nth j [TyValue; TyValue] TyValue) (st_heap s) (nth j [f; x] VNil)
+            = CvOk (nth j [AValue f; AValue x] ANone)).
+  { intros [|[|j]] Hj; try lia; reflexivity. }
+  destruct n; try discriminate Hn.
+  - rewrite (native_args_menu F P re fuel NCall1 l [f; x] [AValue f; AValue x] Hok Hst eq_refl eq_refl Hargs).
+    cbn [native_fn reentrant_post]. rewrite Hp. reflexivity.
+  - rewrite (native_args_menu F P re fuel NTry1 l [f; x] [AValue f; AValue x] Hok Hst eq_refl eq_refl Hargs).
+    cbn [native_fn reentrant_post]. rewrite Hp. fold self. destruct (run_function P re self f s1); reflexivity.
+  - rewrite (native_args_menu F P re fuel NRb1 l [f; x] [AValue f; AValue x] Hok Hst eq_refl eq_refl Hargs).
+    cbn [native_fn reentrant_post]. rewrite Hp. fold self. destruct (run_function P re self f s1); reflexivity.
+Qed.
+
+(* call0(f: Value): run_function on the callee it received, nothing pushed *)
+Theorem reentrant_args_call0 : forall F P re fuel s l f,
+  stack_ok s -> stack_of s = l ++ [f] ->
+  call_native_fuel F P re (S fuel) (handle_of_bytes name_call0) s
+  = native_finish NCall0 (run_function P re (call_native_fuel F P re fuel) f s).
+Proof.
+  intros F P re fuel s l f Hok Hst.
+  assert (Hargs : forall j, j < 1 ->
+            conv F (nth j [TyValue] TyValue) (st_heap s) (nth j [f] VNil) = CvOk (nth j [AValue f] ANone)).
+  { intros [|j] Hj; try lia; reflexivity. }
+  exact (native_args_menu F P re fuel NCall0 l [f] [AValue f] Hok Hst eq_refl eq_refl Hargs).
+Qed.
+
+(* run_function on a script function / closure of arity |args| with the stack  l ++ args: the nested `_run` is
+   entered at the callee's label, with the value stack unchanged (the callee finds its arguments on top) and two
+   frames whose stack offset is the height below the arguments *)
+Theorem run_function_enters : forall P re cn (a : N) (s : state) (l args : list value) h ar ups (is_clo : bool) src,
+  let fr := mkFrame src (last_pos P) (N.of_nat (length l)) (if is_clo then Some a else None) in
+  stack_ok s -> stack_of s = l ++ args -> length args = N.to_nat ar ->
+  hget (st_heap s) a = Some (callee_obj is_clo h ar ups) ->
+  assoc h (p_labels P) = Some src ->
+  S (length (st_calls s)) < call_stack_size ->
+  (code_len P <> 0)%N ->
+  run_function P re cn (VObj a) s
+  = after_reenter (length (st_calls s)) (re src (set_calls s (fr :: fr :: st_calls s))).
+Proof.
+  intros P re cn a s l args h ar ups is_clo src fr Hok Hst Hlen Hobj Hlab Hroom Hcl.
+  assert (Hsc : N.of_nat (scount s) = (N.of_nat (length l) + ar)%N).
+  { rewrite (scount_abs Hok), Hst, app_length, Hlen. lia. }
+  unfold run_function. rewrite Hobj.
+  destruct is_clo; cbn [callee_obj];
+    replace (code_len P =? 0)%N with false by (symmetry; apply N.eqb_neq; exact Hcl);
+    rewrite Hlab; cbv zeta; rewrite Hsc;
+    replace (N.of_nat (length l) + ar <? ar)%N with false by (symmetry; apply N.ltb_ge; lia);
+    replace (N.of_nat (length l) + ar - ar)%N with (N.of_nat (length l)) by lia;
+    fold fr; unfold push_frame;
+    replace (call_stack_size <=? length (st_calls s)) with false by (symmetry; apply Nat.leb_gt; lia);
+    cbn [st_calls set_calls];
+    replace (call_stack_size <=? length (fr :: st_calls s)) with false
+      by (symmetry; apply Nat.leb_gt; cbn [length]; lia);
+    reflexivity.
+Qed.
